@@ -155,6 +155,39 @@ type subEntry struct {
 	n      *rpc.Notifier
 	id     rpc.ID
 	remote string
+	active bool // the eth_subscribe response has been written to the socket
+}
+
+// trackedConn observes completed writes: a subscription only counts as live once the server has
+// written something after creating it, i.e. the eth_subscribe response (the client issues one call
+// at a time). Killing a connection while the response is still unwritten would exercise a race
+// inside go-ethereum's rpc.Client (a request whose send overlaps the teardown is never completed),
+// not the code under test.
+type trackedConn struct {
+	net.Conn
+	s      *Server
+	remote string
+}
+
+func (c *trackedConn) Write(b []byte) (int, error) {
+	n, err := c.Conn.Write(b)
+	if err == nil {
+		c.s.mu.Lock()
+		changed := false
+		for e := range c.s.subs {
+			if e.remote == c.remote && !e.active {
+				e.active = true
+				c.s.st.SubscribeOK++
+				changed = true
+			}
+		}
+		if changed {
+			c.s.countLive()
+			c.s.bump()
+		}
+		c.s.mu.Unlock()
+	}
+	return n, err
 }
 
 type Server struct {
@@ -221,11 +254,32 @@ func (l *trackingListener) Accept() (net.Conn, error) {
 		_ = c.Close()
 		return nil, errors.New("fakeeth: closed")
 	}
-	l.s.conns[c.RemoteAddr().String()] = c
+	tc := &trackedConn{Conn: c, s: l.s, remote: c.RemoteAddr().String()}
+	l.s.conns[tc.remote] = tc
 	l.s.st.Conns++
 	l.s.bump()
 	l.s.mu.Unlock()
-	return c, nil
+	return tc, nil
+}
+
+func (s *Server) countLive() { // lock held
+	n := 0
+	for e := range s.subs {
+		if e.active {
+			n++
+		}
+	}
+	s.st.LiveSubs = n
+}
+
+func (s *Server) liveTargets() []*subEntry { // lock held
+	var out []*subEntry
+	for e := range s.subs {
+		if e.active {
+			out = append(out, e)
+		}
+	}
+	return out
 }
 
 func (s *Server) bump() { // lock held
@@ -289,10 +343,7 @@ func (s *Server) AnnounceHead(n uint64) int {
 	if n > s.st.Head {
 		s.st.Head = n
 	}
-	targets := make([]*subEntry, 0, len(s.subs))
-	for e := range s.subs {
-		targets = append(targets, e)
-	}
+	targets := s.liveTargets()
 	s.bump()
 	s.mu.Unlock()
 	h := header(n)
@@ -477,6 +528,8 @@ func parseAddresses(raw json.RawMessage) ([]common.Address, error) {
 
 var errInjected = errors.New("fakeeth: injected eth_getLogs failure")
 
+const padNotifications = 32
+
 func (a *ethAPI) GetLogs(ctx context.Context, q filterArg) ([]types.Log, error) {
 	s := a.s
 	s.mu.Lock()
@@ -516,11 +569,27 @@ func (a *ethAPI) GetLogs(ctx context.Context, q filterArg) ([]types.Log, error) 
 		if f.kill {
 			req.Outcome = "kill"
 			s.st.LastFault = "killget"
+			s.st.GetLogs = append(s.st.GetLogs, req)
+			// Let the client's dispatcher finish registering the in-flight request before the
+			// connection dies (see trackedConn): a burst of notifications for head 0 (which the
+			// client ignores: below every cursor) forces that many dispatcher iterations first.
+			targets := s.liveTargets()
+			s.mu.Unlock()
+			if len(targets) == 0 {
+				time.Sleep(2 * time.Millisecond)
+			}
+			h := header(0)
+			for i := 0; i < padNotifications; i++ {
+				for _, e := range targets {
+					_ = e.n.Notify(e.id, h)
+				}
+			}
+			s.mu.Lock()
 			s.killLocked()
-		} else {
-			req.Outcome = "fail"
-			s.st.LastFault = "failget"
+			return nil, errInjected
 		}
+		req.Outcome = "fail"
+		s.st.LastFault = "failget"
 		s.st.GetLogs = append(s.st.GetLogs, req)
 		return nil, errInjected
 	}
@@ -581,9 +650,7 @@ func (a *ethAPI) NewHeads(ctx context.Context) (*rpc.Subscription, error) {
 	}
 	sub := notifier.CreateSubscription()
 	e := &subEntry{n: notifier, id: sub.ID, remote: remote}
-	s.subs[e] = struct{}{}
-	s.st.LiveSubs = len(s.subs)
-	s.st.SubscribeOK++
+	s.subs[e] = struct{}{} // becomes live (and counts as SubscribeOK) when the response has been written
 	s.bump()
 	s.mu.Unlock()
 	go func() {
@@ -594,7 +661,7 @@ func (a *ethAPI) NewHeads(ctx context.Context) (*rpc.Subscription, error) {
 		s.mu.Lock()
 		if _, ok := s.subs[e]; ok {
 			delete(s.subs, e)
-			s.st.LiveSubs = len(s.subs)
+			s.countLive()
 			s.bump()
 		}
 		s.mu.Unlock()
